@@ -15,10 +15,10 @@ CHECKS = {
          "Structural necessary conditions, decided for every function of the four generated monad packages: the definitional reference graph has no branch-free cycle (a circular definition diverges on all-success inputs), every parameter of every combinator is used, and StateT bodies never reuse a state that was fed to a run (right identity of StateT); a unit function (Pure/Some/Success/Right/Done) never converts its type-parameter argument to an interface, so it cannot treat nil payloads differently (SSA value flow through moves, closures and static calls). A violation names the cycle / the parameter / the conversion.",
          "§4 C01", "the three laws as value equalities; Seq/List/Iterator/Eval/fn0/fn1 instances"),
  "C02": ("structured success-test analysis (continuation/handler classification by type), supplier-deferral rule, recover-handler rule (AST, go/types)",
-         "Call-placement clauses decided for every success test of a Try/Option/Either operand in the root package, the monad packages and the folds: no continuation and no iterator pull on the failure side, no handler on the success side, continuations receive a value extracted from the tested operand, a fold stops at the first failed step, short-circuiting functions return the operand itself or a failure built from it alone, recover-style functions return successes untouched; supplier parameters are only invoked inside deferred literals or under a test; the five panic-capturing functions register a recover handler first, which produces a failure carrying the recovered value only when it is non-nil; effect-order summaries (R-EFFORDER): every branch-free or test-guarded combinator consults its monadic operands in declaration order, and the methods of one builder type agree on the order of the receiver's fields and consult them before their arguments; in a fold over a cursor every path from a monadic step result to the next consultation of the cursor passes a test of that result (R-FOLDSTOP).",
+         "Call-placement clauses decided for every success test of a Try/Option/Either operand in the root package, the monad packages and the folds: no continuation and no iterator pull on the failure side, no handler on the success side, continuations receive a value extracted from the tested operand, a fold stops at the first failed step, short-circuiting functions return the operand itself or a failure built from it alone, recover-style functions return successes untouched; supplier parameters are only invoked inside deferred literals or under a test; the five panic-capturing functions register a recover handler first, which produces a failure carrying the recovered value only when it is non-nil and never type-asserts that value (here or in a helper it is passed to); effect-order summaries (R-EFFORDER): every branch-free or test-guarded combinator consults its monadic operands in declaration order, and the methods of one builder type agree on the order of the receiver's fields and consult them before their arguments; in a fold over a cursor every path from a monadic step result to the next consultation of the cursor passes a test of that result (R-FOLDSTOP).",
          "§4 C02", "invocation counts and global left-to-right order across a whole nested generated expression (effect-order summary not built)"),
  "C03": ("path-sensitive nil-fact dataflow on SSA over Map/Set/immutable types, discarded-update rule, exhaustiveness of node type switches",
-         "Necessary conditions on the wrappers and on result threading (the trie arithmetic itself is not decided): every call through Map.Base / Set.set / Set.getEmpty / hamt.root / mapBuilder.m is dominated by its nil test (zero value behaves as empty); no persistent update result (Updated/Removed/Incl/Excl/node set/delete …) is discarded outside explicit in-place mode; every type switch over trie nodes has a default, covers all node kinds, or (leaf-only) covers every kind without children; the iterator's depth-indexed stack has a slot for every level a 32-bit hash can produce; all node kinds cut the hash fragment with one mask and descend with one level increment, and never consult a child at its parent's level (R-FRAG); a node built for a deeper level is never returned as this level's node unless proven a leaf (R-LEVEL); every entry-adding event of set is preceded by *resized = true on every feasible path (R-RESIZED).",
+         "Necessary conditions on the wrappers and on result threading (the trie arithmetic itself is not decided): every call through Map.Base / Set.set / Set.getEmpty / hamt.root / mapBuilder.m is dominated by its nil test (zero value behaves as empty); no persistent update result (Updated/Removed/Incl/Excl/node set/delete …) is discarded outside explicit in-place mode; every type switch over trie nodes has a default, covers all node kinds, or (leaf-only) covers every kind without children; the iterator's depth-indexed stack has a slot for every level a 32-bit hash can produce; all node kinds cut the hash fragment with one mask and descend with one level increment, and never consult a child at its parent's level (R-FRAG); a node built for a deeper level is never returned as this level's node unless proven a leaf (R-LEVEL); every entry-adding event of set is preceded by *resized = true on every feasible path (R-RESIZED); a Set built inside a Set method carries the receiver's getEmpty factory (R-SETCTX).",
          "§4 C03", "trie arithmetic for every history and hasher (bitmap/popcount indices, node conversions, collision nodes, the resized flag on delete)"),
  "C04": ("field-sensitive points-to analysis on SSA with interprocedural write/return/invoke summaries and bool-flag guards (E1), builder typestate rule",
          "Proves the stronger 'never writes foreign memory' for every exported function and method of the library outside the mutable surface: no store, append, copy, sort, map update or callee (through interface joins, call-backs and fold-threaded accumulators) writes an object reachable from a parameter, a global or unknown memory; writes guarded by the trie's `mutable` flag count only where true can reach them; builder methods that publish the in-place trie give it up, through a pointer receiver.",
@@ -33,10 +33,10 @@ CHECKS = {
          "Structural conditions of component-wise equality and of hash/eq agreement: every component Eqv/Less/Compare call in eq, hash and ord applies the same accessor path to the two different operands; every instance parameter is used; for every hash.New(E, h) the instances consulted by h are a subset of those E is built from; hash functions (including those of package-level instances) use no unsafe/reflect/uintptr/%p/float bit patterns/map iteration/time/rand and no package-level state shared between callers; a container equality returns true only where equal sizes are established; an Eq over Go maps looks the other map up with the comma-ok form.",
          "§4 C09", "reflexivity/symmetry/transitivity and hash agreement as statements over all values"),
  "C10": ("one-sided-comparison rule (R-LEX), mirrored accessor paths, sort.Interface shape check (AST, go/types)",
-         "Structural necessary conditions of a strict total order / ordered permutation: every component Less test that falls through to further components is followed by the mirrored test; component calls use the same accessor path on both operands; every in-module sort.Interface keeps index order, swaps exactly i and j and reports len of the same slice; Compare results are examined by sign only; less functions are strict (no <=, no negated less); binary instances never exchange their operands; R-LEX also covers direct calls of a LessFunc value; a less-based Compare returns a non-zero constant only under the less test of the matching direction (R-TRICHOTOMY).",
+         "Structural necessary conditions of a strict total order / ordered permutation: every component Less test that falls through to further components is followed by the mirrored test; component calls use the same accessor path on both operands; every in-module sort.Interface keeps index order, swaps exactly i and j and reports len of the same slice; Compare results are examined by sign only; less functions are strict (no <=, no negated less); binary instances never exchange their operands; R-LEX also covers direct calls of a LessFunc value; a less-based Compare returns a non-zero constant only under the less test of the matching direction (R-TRICHOTOMY); the payload of Option/Try.Unapply is used only behind the success edge of a test of its flag (R-PAYLOAD).",
          "§4 C10", "transitivity/totality of leaf instances; Min/Max semantics as values"),
  "C11": ("operator/identity table over resolved monoid constructions, named-instance binding, discarded-result and fold-argument-role rules (AST, go/types)",
-         "Structural necessary conditions: a monoid built from a built-in operator and a constant uses that operator's identity and an associative operator; Sum/Product/Any/All/String are bound to +,*,||,&&,+; no pure typeclass result is discarded; Combine is called (accumulator, element) in left folds and (element, rest) in FoldRight call-backs; tuple/HCons/Dual combine the same component of both operands in the stated order; every fold over a monoid consults Empty; binary instances never exchange their operands; a Combine closure over pointer/map/slice operands never writes through them.",
+         "Structural necessary conditions: a monoid built from a built-in operator and a constant uses that operator's identity and an associative operator; Sum/Product/Any/All/String are bound to +,*,||,&&,+; no pure typeclass result is discarded; Combine is called (accumulator, element) in left folds and (element, rest) in FoldRight call-backs; tuple/HCons/Dual combine the same component of both operands in the stated order; every fold over a monoid consults Empty; binary instances never exchange their operands; a Combine closure over pointer/map/slice operands never writes through them nor appends onto them.",
          "§4 C11", "associativity of leaf combines, Endo/Merge* semantics as values"),
  "C12": ("loop-progress rule on go/cfg, eager-scan summaries (least fixpoint), read-ahead and deferred-self-reference rules (AST, go/types)",
          "Termination/laziness clauses, decided for every cursor loop and every lazy constructor of the library: every `for x.HasNext()/NonEmpty()` loop advances x on every back-edge path; no Iterator/List-returning function scans a cursor parameter eagerly; no MakeIterator next() refills its cache by an unbounded scan after taking the element; List/Eval-returning functions refer to themselves only inside deferred literals; a counter bound is tested before the source is consulted; the two thunks of one MakeList never both consume the same iterator; a function that patches the closures of an fp.Iterator value re-establishes its cached concat decomposition.",
@@ -45,7 +45,7 @@ CHECKS = {
          "Two clauses of the property: (1) no enumeration of a hash-ordered collection in gombok/metafp/genfp/template_gen/monad_gen reaches emitted text in map order — every site has an order-insensitive body, a sorted or order-insensitive consumer, or a listed reason that is re-checked on every run where it is conditional; (2) every generated file is named by a directive the generators consume and every such directive's file exists; plus: a format.Source error is fatal; the sorted copy returned by the module's Sort functions is never discarded, and a variable still holding a hash-ordered sequence is not ranged over with an order-sensitive body.",
          "§4 C13", "byte-for-byte regeneration (an execution of the generators)"),
  "C14": ("parametric-fragment check of every generated arity member + directive/member arity cross-reference (AST, go/types, constant evaluation)",
-         "Type-level argument: every member <Family><N> has pairwise distinct type parameters on its bare-typed value positions, fabricates no value, uses no assertion/reflect/panic/loop, uses every positional parameter, and recurses only to a smaller arity — so the type checker forces argument i to position i; every GenerateFromUntil family is declared for exactly the arities its directive prescribes; the typeclass TupleN families use every component instance on the same component of both operands, in operand order for Combine.",
+         "Type-level argument: every member <Family><N> has pairwise distinct type parameters on its bare-typed value positions, fabricates no value, uses no assertion/reflect/panic/loop, uses every positional parameter, and recurses only to a smaller arity — so the type checker forces argument i to position i; every GenerateFromUntil family is declared for exactly the arities its directive prescribes; the typeclass TupleN families use every component instance on the same component of both operands, in operand order for Combine; every member of a generated arity family (two smallest arities and the largest exempt) uses the same callees, digits removed, as the majority of its family (R-SIBLING).",
          "§4 C14", "effect order inside LiftAN/MapN; String()/Name() formats; the parametricity meta-theorem is trusted, not mechanised"),
  "C15": ("per-method rules on go/cfg for every UnmarshalJSON/MarshalJSON of the module",
          "For every UnmarshalJSON: the pointer receiver is rejected when nil before any dereference and every store through it happens only when decoding reported no error (or every later return is nil); for every MarshalJSON: the receiver itself is never handed to json.Marshal; fp.Option emits null exactly on the not-defined side and the payload's encoding otherwise; the decoder is never handed the target itself; no Go-syntax quoting in MarshalJSON; no UnmarshalJSON switches its decoder to UseNumber.",
@@ -63,7 +63,7 @@ CHECKS = {
          "Structural conditions of linearizability: every Store on the snapshot cell happens under the map's mutex and every exit releases it; no method (nor a literal handed to copyOnWrite) writes a map loaded from the cell; read-only methods load the snapshot once; a method that reads outside the lock before copyOnWrite re-derives its decision from the literal's own parameter and returns nothing read after the critical section; the snapshot a published value derives from is read under the lock; every operation publishes at most one snapshot (no publishing call in a loop or twice on one path); the innermost condition deciding a Store, if it examines the cell, examines a value read under the lock.",
          "§4 C19", "linearizability over all interleavings"),
  "C20": ("path-sensitive nil-fact dataflow on SSA (R-NILGUARD), fabricated-return rule, must-hold lock dataflow on SSA",
-         "Three clauses: every call through Iterator.hasNext is dominated by its nil test (zero Iterator behaves as empty); no MakeIterator next() returns a fabricated zero value; in Duplicate every access to the shared queue/flag/source happens with the mutex held and every exit releases it; when hasNext keeps look-ahead state, next re-establishes it through hasNext or its refill helper; calls into the source iterator made under Duplicate's mutex are covered by a deferred Unlock (a panicking Next does not leave the mutex held); when hasNext depends on state that next updates, next does not guard its pull with the source's HasNext alone.",
+         "Three clauses: every call through Iterator.hasNext is dominated by its nil test (zero Iterator behaves as empty); no MakeIterator next() returns a fabricated zero value; in Duplicate every access to the shared queue/flag/source happens with the mutex held and every exit releases it; when hasNext keeps look-ahead state, next re-establishes it through hasNext or its refill helper; calls into the source iterator made under Duplicate's mutex are covered by a deferred Unlock (a panicking Next does not leave the mutex held); when hasNext depends on state that next updates, next does not guard its pull with the source's HasNext alone; a pulled element reaches a look-ahead variable only through a condition on the predicate's verdict (R-CACHEGUARD).",
          "§4 C20", "HasNext idempotence of look-ahead combinators; pull-order independence of Duplicate/Span/Partition"),
 }
 
